@@ -7,6 +7,7 @@ pub mod prng;
 pub mod sched;
 pub mod simenv_case;
 pub mod simenv_gen;
+pub mod step;
 pub mod workload;
 
 use std::collections::BTreeSet;
@@ -52,6 +53,11 @@ pub fn validate(spec: &RunSpec) -> Result<(), String> {
                     live.insert(*slot);
                 }
             }
+        }
+    }
+    for p in &spec.preempts {
+        if p.client >= spec.clients.len() || p.to >= spec.clients.len() || p.visit == 0 {
+            return Err("preemption names a client that does not exist".into());
         }
     }
     if !recvd.is_subset(&sent) {
